@@ -79,6 +79,19 @@ class Scen:
         self.timeout = ClientTimeout(connect=case.get("connect_timeout"))
         # tasks listed in case["late"] call connect() only when the environment says so
         self.starts = [loop.create_future() if i in case.get("late", ()) else None for i in range(self.n)]
+        # client tracing with callbacks that really suspend: every connection trace point becomes an await point
+        # at which the request can be cancelled or overtaken
+        self.trace_gates = []               # [(task index, signal name, future)]
+        self.traces = [[] for _ in range(self.n)]
+        if case.get("trace"):
+            from aiohttp.tracing import Trace, TraceConfig
+            for i in range(self.n):
+                tc = TraceConfig()
+                for name in ("on_connection_queued_start", "on_connection_queued_end", "on_connection_create_start",
+                             "on_connection_create_end", "on_connection_reuseconn"):
+                    getattr(tc, name).append(self._trace_cb(i, name[len("on_connection_"):]))
+                tc.freeze()
+                self.traces[i] = [Trace(None, tc, tc.trace_config_ctx())]
         self.tasks = [loop.create_task(self.client(i)) for i in range(self.n)]
         self.reused = 0
 
@@ -88,7 +101,7 @@ class Scen:
             await self.starts[i]
         self.phase[i] = "connecting"
         try:
-            conn = await self.conn.connect(_Req(key(self.hosts[i])), [], self.timeout)
+            conn = await self.conn.connect(_Req(key(self.hosts[i])), self.traces[i], self.timeout)
         except asyncio.CancelledError:
             self.phase[i] = "cancelled"
             self.attempting[i] = False
@@ -114,6 +127,16 @@ class Scen:
         else:
             conn.release()
         self.phase[i] = "done"
+
+    def _trace_cb(self, i, name):
+        async def cb(session, ctx, params):
+            fut = self.loop.create_future()
+            self.trace_gates.append((i, name, fut))
+            try:
+                await fut
+            finally:
+                self.trace_gates = [g for g in self.trace_gates if g[2] is not fut]
+        return cb
 
     async def attempt(self, req):
         i = next(k for k in range(self.n) if self.phase[k] == "connecting" and not self.attempting[k]
@@ -141,6 +164,9 @@ class Scen:
     # ---- environment -------------------------------------------------------
     def menu(self):
         m = []
+        for (i, name, fut) in self.trace_gates:
+            if not fut.done():
+                m.append((f"trace.t{i}.{name}", lambda f=fut: f.done() or f.set_result(None)))
         for idx, (i, fut) in enumerate(self.attempts):
             if not fut.done():
                 m.append((f"conn.t{i}.ok", lambda f=fut: f.done() or f.set_result(True)))
@@ -151,8 +177,8 @@ class Scen:
                 m.append((f"{mode}.t{i}", lambda h=h, mode=mode: h.done() or h.set_result(mode)))
         for i in range(self.n):
             st = self.starts[i]
-            if st is not None and not st.done():
-                m.append((f"start.t{i}", lambda st=st: st.done() or st.set_result(None)))
+            if st is not None and not st.done() and not self.closed:      # nobody issues requests on a closed connector
+                m.append((f"start.t{i}", lambda st=st: st.done() or self.closed or st.set_result(None)))
         return m
 
     def faults(self):
@@ -194,7 +220,7 @@ class Scen:
                 k = sum(1 for i in used if self.hosts[i] == h)
                 if k > per:
                     self.P("limit-per-host-exceeded", f"{k} connections for host h{h}, limit_per_host {per}: phases {self.phase}")
-        if not c._closed and len(c._acquired) != len(used):
+        if not c._closed and len(c._acquired) != len(used) and not self.case.get("trace"):
             self.P("accounting-mismatch", f"connector counts {len(c._acquired)} acquired, harness ledger {len(used)}: phases {self.phase} attempting {self.attempting}")
 
     def final(self):
@@ -214,6 +240,11 @@ class Scen:
                     self.P("leak:acquired-per-host", f"entries left in _acquired_per_host: {dict(c._acquired_per_host)!r}")
                 if any(v for v in c._waiters.values()):
                     self.P("leak:waiters", "waiters left after all requests finished")
+                # every connection the connector created is by now closed or idle in its pool (where close() finds it)
+                pooled = {id(p.transport) for conns in c._conns.values() for (p, _t) in conns}
+                for t in self.transports:
+                    if not t.is_closing() and id(t) not in pooled:
+                        self.P("leak:orphaned-connection", f"a connection is open but neither in use nor in the pool after all requests finished: phases {self.phase}")
         else:
             if self.close_task is not None and not self.close_task.done():
                 self.P("close-hangs", "connector.close() did not return")
@@ -256,6 +287,10 @@ def cases(quick):
     out.append({"tasks": 3, "hosts": [0, 0, 0], "limit": 1, "per_host": 0, "faults": ["cancel"], "connect_timeout": 3})
     out.append({"tasks": 2, "hosts": [0, 0], "limit": 1, "per_host": 0, "faults": ["cancel", "close"], "force_close": True})
     out.append({"tasks": 3, "hosts": [0, 0, 0], "limit": 2, "per_host": 0, "faults": ["cancel", "altmode"], "modes": ["close", "release", "close"]})
+    # tracing on: the trace points of connect() are await points
+    for hosts, lim, per, late in (([0, 0], 1, 0, [1]), ([0, 0], 2, 0, [1]), ([0, 0, 0], 1, 0, [1, 2]), ([0, 0, 1], 2, 1, [2]), ([0, 0], 1, 0, [])):
+        for faults in (["cancel", "altmode"], ["close"]):
+            out.append({"tasks": len(hosts), "hosts": hosts, "limit": lim, "per_host": per, "faults": faults, "reverse": False, "late": late, "trace": True})
     # late starters: a request that arrives while others hold / have released connections
     # (idle pooled connections of another key, a free slot next to a queue of waiters)
     for hosts in ([0, 0, 0], [0, 0, 1], [0, 1, 0], [1, 0, 1]):
